@@ -142,8 +142,6 @@ def shapes(tier):
     for par, links in LY.structures(3, 2, 2):
         if LY.leaf_cycle(par, links):
             continue
-        if tier == 'quick' and len(par) == 3 and len(links) == 2:
-            continue
         out.append((par, links))
     return out
 
@@ -178,11 +176,14 @@ def analyse(kind, page, tasks, links):
     return {'data': data, 'error': err}
 
 
-def check(par, links, names, milestones, sections, clock_off, acc, base_cache):
+def check(par, links, names, milestones, sections, clock_off, acc, base_cache, spent=None):
     """One scheduled WBS x one rendering configuration."""
     n = len(par)
     lv = [i for i in range(n) if LY.is_leaf(par, i)]
     attrs = {i: {'estimate': 4, 'resource': 'A'} for i in lv}
+    if spent is not None:
+        for k, i in enumerate(lv):
+            attrs[i]['spent'] = spent[k % len(spent)]
     for i in milestones:
         if i in lv:
             attrs[i] = {'milestone': True, 'resource': 'A'}
@@ -297,22 +298,27 @@ def _work(chunk):
             for sec in sec_opts:
                 for clock_off in (timedelta(days=-5), timedelta(hours=2), timedelta(days=30)):
                     for pos in range(k):
-                        jobs.append((par, links, ms, sec, clock_off, pos))
-    for (par, links, ms, sec, clock_off, pos) in jobs[i::n]:
+                        jobs.append((par, links, ms, sec, clock_off, pos, None))
+        # work already spent (less than, equal to and more than the estimate): progress must stay within 0..1
+        for spent in ((2,), (4, 12), (12, 0)):
+            for clock_off in (timedelta(days=-5), timedelta(hours=2)):
+                jobs.append((par, links, (), {}, clock_off, 0, spent))
+    for (par, links, ms, sec, clock_off, pos, spent) in jobs[i::n]:
         k = len(par)
         base_names = ['t%d' % j for j in range(k)]
         base_names[pos] = 'x'
-        wb, tb, depb, resb, clock = check(par, links, base_names, ms, sec, clock_off, acc, None)
+        wb, tb, depb, resb, clock = check(par, links, base_names, ms, sec, clock_off, acc, None, spent)
         adv_id = sorted(t.id for t in tb)[pos]
-        for nm in NAMES:
+        for nm in (NAMES if spent is None else NAMES[:3]):
             names = list(base_names)
             names[pos] = nm
-            w, tasks, deps, res, clock = check(par, links, names, ms, sec, clock_off, acc, None)
+            w, tasks, deps, res, clock = check(par, links, names, ms, sec, clock_off, acc, None, spent)
             for kind in ('gantt', 'network', 'dhtmlx'):
                 acc.count('evaluations')
                 case = {'parents': list(par), 'links': [list(x) for x in links], 'names': names, 'milestones': list(ms),
-                        'sections': {str(a): b for a, b in sec.items()}, 'clock_offset_h': clock_off.total_seconds() / 3600, 'renderer': kind}
-                cls = name_class(nm)
+                        'sections': {str(a): b for a, b in sec.items()}, 'clock_offset_h': clock_off.total_seconds() / 3600, 'renderer': kind,
+                        'spent': list(spent) if spent else None}
+                cls = name_class(nm) if spent is None else 'spent-work'
 
                 def V(clause, msg):
                     acc.violation('C19', f'{clause}/{cls}', f'name {nm!r}: {msg}', case)
